@@ -279,7 +279,7 @@ class Engine:
                 try:
                     try:
                         p.ret = thunk(it)
-                    except (KeyError, AttributeError, IndexError, TypeError) as e:
+                    except (KeyError, AttributeError, IndexError, TypeError, ValueError) as e:
                         # the contract refers to a local / attribute / shape that the current source no longer has:
                         # a contract-mapping error makes the function undecided, it is never a violation
                         import traceback
